@@ -37,6 +37,8 @@ func acquireDecoder() *Decoder {
 		dec.skipP = 0
 		dec.filterType = 0
 		dec.AlphaData = nil
+		// Left intra-mode context: a decode that failed mid-row leaves it dirty.
+		dec.intraL = [4]uint8{}
 		return dec
 	}
 	return &Decoder{}
